@@ -668,6 +668,17 @@ def ob_function_forms(Ne, nPg, dim):
         if np.shape(got) != want.shape or not np.array_equal(np.asarray(got), want):
             raise Refuted(f"{what} (Ne={Ne}, nPg={nPg}, dim={dim}): the mask is not applied point by point (max difference "
                           f"{np.abs(np.asarray(got) - want).max() if np.shape(got) == want.shape else 'shape'})", cex=dict(Ne=Ne, nPg=nPg, dim=dim, call=what), signature="function:where:value", replay=dict(confirmed=True))
+    # a field given as `out=` takes part in the alignment: a scalar field written into a matrix-field buffer fills every component of the tensor at (e, p)
+    buf = FeArray.asfearray(np.full((Ne, nPg, dim, dim), -7.0))
+    try:
+        got = np.multiply(sw, 2.0, out=buf)
+    except Exception as ex:
+        raise Refuted(f"np.multiply(scalar field, 2.0, out=matrix-field buffer) raises {type(ex).__name__}: {ex}", cex=dict(Ne=Ne, nPg=nPg, dim=dim), signature="function:out:raises", replay=dict(confirmed=True))
+    want = np.broadcast_to((2.0 * np.asarray(sw))[:, :, None, None], (Ne, nPg, dim, dim))
+    n += 1
+    if np.shape(got) != want.shape or not np.array_equal(np.asarray(got), want):
+        raise Refuted(f"np.multiply(scalar field, 2.0, out=matrix-field buffer) (Ne={Ne}, nPg={nPg}, dim={dim}): the buffer does not hold 2 s[e, p] in every component at (e, p) (max difference "
+                      f"{np.abs(np.asarray(got) - want).max() if np.shape(got) == want.shape else 'shape'})", cex=dict(Ne=Ne, nPg=nPg, dim=dim), signature="function:out:value", replay=dict(confirmed=True))
     # fields of different tensor extents joined along a tensor axis
     a2, b3 = fld(2), fld(dim)
     try:
